@@ -17,6 +17,22 @@
 (*    to it => every decision after the reload equals that of the run in   *)
 (*    which Xm was there from the start (the history before the reload is  *)
 (*    chosen so that both rules decide alike - checked).                   *)
+(*  - kept: the watched rule is a circuit-breaker rule (error count,       *)
+(*    threshold brk.thr, one statistic bucket of brk.win ms that contains  *)
+(*    the whole history) and new contains "Xr" instead: X with only the    *)
+(*    retry timeout changed (brk.retry) - the statistic parameters and the *)
+(*    way the statistics are read are unchanged, and the statement's reuse *)
+(*    relation hands X's statistics to Xr WHATEVER the state of the old    *)
+(*    breaker (MatchT: Reuse = "statement" ignores the tripped set; with   *)
+(*    Reuse = "closedOnly" this module would accept the loss).  There is   *)
+(*    no reference run: the error count accumulated before the reload is   *)
+(*    read off the recorded history (observed outcomes), the regenerated   *)
+(*    breaker starts Closed on the KEPT count, and every decision after    *)
+(*    the reload is computed by the breaker model below (Closed -> Open on *)
+(*    the first completion with count >= threshold, Open -> probe at the   *)
+(*    retry deadline); after the reload every request completes at once    *)
+(*    (no probe stays in flight), before it a probe may be held in flight  *)
+(*    so that the old breaker is HalfOpen at the reload.                   *)
 (* The entry point is a parameter of every load (RuleReuse: Reload(path,   *)
 (* new)): the pair records the entry point of the INITIAL load (p0:        *)
 (* "whole" | "res") and of the reload (path: "whole" | "wholeOther" |      *)
@@ -36,8 +52,9 @@ EXTENDS RuleReuse, Json
 
 Trace == ndJsonDeserialize("trace.ndjson")
 
-VARIABLES l, g, failed, parted
-tvars == <<l, g, failed, parted, P, Sh, n, ok, kept, h>>
+VARIABLES l, g, failed, parted,
+          bk      \* mode kept: the watched breaker [st: "Closed" | "Open" | "HalfOpen", err: kept error count, dl: retry deadline]
+tvars == <<l, g, failed, parted, bk, P, Sh, n, ok, kept, h>>
 Unused == UNCHANGED <<ok, h>>
 
 Ev == Trace[l]
@@ -57,17 +74,25 @@ WellFormedLists(e) ==
        /\ Count(e.old, "X") = 1 /\ Count(e.new, "Xm") = 1 /\ Count(e.new, "X") = 0 /\ Count(e.old, "Xm") = 0
        /\ e.stat["X"] # "none"
        /\ LET m == ReuseStatement(e.stat, e.old, e.new) IN m[PosOf(e.new, "Xm")].s = PosOf(e.old, "X")
+WellFormedKept(e) ==
+    /\ e.mode = "kept"
+    /\ Count(e.old, "X") = 1 /\ Count(e.new, "Xr") = 1 /\ Count(e.new, "X") = 0 /\ Count(e.old, "Xr") = 0
+    /\ e.stat["X"] # "none" /\ e.stat["Xr"] = e.stat["X"]
+    /\ e.brk.thr > 0 /\ e.brk.retry > 0 /\ e.brk.win > 0
+    \* the relation of the statement hands X's statistics to Xr
+    /\ LET m == ReuseStatement(e.stat, e.old, e.new) IN m[PosOf(e.new, "Xr")].s = PosOf(e.old, "X")
 WellFormed(e) ==
     /\ e.p0 \in {"whole", "res"} /\ e.path \in Paths /\ Paths \subseteq AllPaths
-    /\ WellFormedLists(e)
+    /\ (WellFormedLists(e) \/ WellFormedKept(e))
 
 TNew ==
     /\ IsEvent("new")
     /\ WellFormed(Ev)
     /\ g' = [tr |-> Ev.tr, kind |-> Ev.kind, mod |-> Ev.mod, mode |-> Ev.mode, old |-> Ev.old, new |-> Ev.new, pos |-> Ev.pos,
-             stat |-> Ev.stat, p0 |-> Ev.p0, path |-> Ev.path, opt |-> Ev.opt, reached |-> ~Skipped(Ev.path, Ev.old, Ev.new),
+             stat |-> Ev.stat, brk |-> Ev.brk, p0 |-> Ev.p0, path |-> Ev.path, opt |-> Ev.opt, reached |-> ~Skipped(Ev.path, Ev.old, Ev.new),
              relaxed |-> (Ev.mode = "erase" /\ Duplicated(Ev.old, Ev.new, "X"))]
     /\ failed' = FALSE /\ parted' = FALSE
+    /\ bk' = [st |-> "Closed", err |-> 0, dl |-> 0]
     \* the design-level state of the pair: primary = run A, shadow = run B, both after the initial load through p0
     /\ P' = LoadSC(Reuse, Ev.stat, << >>, Ev.p0, Ev.old)
     /\ Sh' = LoadSC(Reuse, Ev.stat, << >>, Ev.p0, IF Ev.mode = "erase" THEN Ev.old ELSE Ev.new)
@@ -79,6 +104,8 @@ NotMoreGenerous(a, b) == (a.d = "B" /\ b.d = "P") \/ (a.d = "P" /\ b.d = "P" /\ 
 
 TStep ==
     /\ IsEvent("step")
+    /\ g.mode # "kept"
+    /\ UNCHANGED bk
     \* replay on the design-level state: the recorded reload is RuleReuse's load of g.new through entry point g.path
     \* on the primary (the shadow skips it), every step is one traffic event.  The design under test (constants of the
     \* cfg: Reuse = "statement", Defaulting = {}) must make this reload invisible for the watched rule whatever entry
@@ -99,11 +126,58 @@ TStep ==
     /\ UNCHANGED g
     /\ Unused
 
+---------------------------------------------------------------------------
+(* mode kept: the breaker model                                            *)
+Bool2Int(b) == IF b THEN 1 ELSE 0
+\* before the reload the model FOLLOWS the observed outcomes (the old breaker is judged elsewhere): a completed request
+\* adds its error to the count; the breaker is tripped once the count reaches the threshold.  A request that is admitted
+\* by a tripped breaker is a probe: it must stay in flight ("hold"), a completed probe could reset the statistics.
+PreStep(b, e) ==
+    IF e.a.d = "P" /\ e.o = "req"
+    THEN LET c == b.err + Bool2Int(e.f) IN [st |-> IF c >= g.brk.thr THEN "Open" ELSE "Closed", err |-> c, dl |-> 0]
+    ELSE IF e.a.d = "P" /\ b.st # "Closed" THEN [b EXCEPT !.st = "HalfOpen"] ELSE b
+PreOK(b, e) == (e.a.d = "P" /\ e.o = "req") => b.st = "Closed"
+\* the breaker generated by the reload: Closed, on the statistics the reuse relation hands to Xr - with the relation under
+\* test, whatever the state of the old breaker (trp = its position if it is tripped)
+AfterReload(b) ==
+    LET posX == PosOf(g.old, "X")
+        m    == MatchT(Reuse, g.stat, KeysOf(P), KeyList(g.path, g.new), IF b.st # "Closed" THEN {posX} ELSE {})
+    IN  [st |-> "Closed", err |-> IF m[PosOf(g.new, "Xr")].s = posX THEN b.err ELSE 0, dl |-> 0]
+\* after the reload: the decision the model demands for step e, and the breaker after it
+Demand(b, e) == IF b.st = "Closed" \/ (b.st = "Open" /\ e.t >= b.dl) THEN "P" ELSE "B"
+PostStep(b, e) ==
+    IF b.st = "Closed"
+    THEN LET c == b.err + Bool2Int(e.f) IN IF c >= g.brk.thr THEN [st |-> "Open", err |-> c, dl |-> e.t + g.brk.retry] ELSE [b EXCEPT !.err = c]
+    ELSE IF e.t >= b.dl                 \* Open, the retry deadline has come: this request is the probe
+         THEN IF e.f THEN [st |-> "Open", err |-> b.err + 1, dl |-> e.t + g.brk.retry] ELSE [st |-> "Closed", err |-> 0, dl |-> 0]
+         ELSE b
+
+TStepKept ==
+    /\ IsEvent("step")
+    /\ g.mode = "kept"
+    /\ Ev.o \in {"req", "hold"} /\ Ev.t < g.brk.win          \* one statistic bucket, no releases: else not a scenario of this form
+    /\ Ev.i > g.pos => Ev.o = "req"
+    /\ LET rl == (Ev.i = g.pos + 1)
+           b0 == IF rl THEN AfterReload(bk) ELSE bk
+       IN  IF Ev.i <= g.pos
+           THEN /\ PreOK(bk, Ev)
+                /\ bk' = PreStep(bk, Ev)
+                /\ failed' = failed
+           ELSE /\ bk' = PostStep(b0, Ev)
+                /\ Judge(Ev.a.d = Demand(b0, Ev),
+                         [kind |-> g.kind, mod |-> g.mod, mode |-> g.mode, old |-> g.old, new |-> g.new, pos |-> g.pos, p0 |-> g.p0, path |-> g.path,
+                          opt |-> g.opt, reached |-> g.reached, step |-> Ev.i, a |-> Ev.a, b |-> [d |-> Demand(b0, Ev), w |-> 0],
+                          breaker |-> b0, tripped_at_reload |-> (IF rl THEN bk.st ELSE "-")])
+    /\ P' = Aged(g.stat, IF Ev.i = g.pos + 1 THEN LoadSC(Reuse, g.stat, P, g.path, g.new) ELSE P)
+    /\ Sh' = Sh /\ kept' = kept /\ n' = n + 1
+    /\ UNCHANGED <<g, parted>>
+    /\ Unused
+
 TInit ==
-    /\ l = 1 /\ failed = FALSE /\ parted = FALSE
-    /\ g = [tr |-> 0, kind |-> "", mod |-> "", mode |-> "", old |-> << >>, new |-> << >>, pos |-> 0, stat |-> << >>, p0 |-> "", path |-> "", opt |-> "",
+    /\ l = 1 /\ failed = FALSE /\ parted = FALSE /\ bk = [st |-> "Closed", err |-> 0, dl |-> 0]
+    /\ g = [tr |-> 0, kind |-> "", mod |-> "", mode |-> "", old |-> << >>, new |-> << >>, pos |-> 0, stat |-> << >>, brk |-> << >>, p0 |-> "", path |-> "", opt |-> "",
             reached |-> FALSE, relaxed |-> FALSE]
     /\ P = << >> /\ Sh = << >> /\ n = 0 /\ ok = TRUE /\ kept = 0 /\ h = << >>
-TNext == TNew \/ TStep
+TNext == TNew \/ TStep \/ TStepKept
 TSpec == TInit /\ [][TNext]_tvars
 =============================================================================
